@@ -78,3 +78,43 @@ def minimise_text(case, failure, examine, budget=3000, fields=3):
     if f2 is None:
         return case, failure
     return c2, f2
+
+
+def run_atheris_grammar(spec, shard, examine, want_prefix):
+    """A libFuzzer campaign with the membership oracle inside the target; failures of the wanted kind become cases."""
+    import json
+    import os
+    import subprocess
+    import sys
+
+    here = os.path.dirname(os.path.dirname(os.path.abspath(__file__)))
+    work = os.path.join(here, "out", f"atheris-{want_prefix}-{spec['seed']}-{spec['idx']}")
+    os.makedirs(work, exist_ok=True)
+    for f in os.listdir(work):
+        fp = os.path.join(work, f)
+        if os.path.isfile(fp):
+            os.unlink(fp)
+    cmd = [sys.executable, "-X", "utf8", os.path.join(here, "fuzz", "compile_target.py"), "--work", work, "--oracle", "grammar",
+           "--corpus", spec["corpus"], "--runs", str(spec["runs"]), "--seed", str(spec["seed"] % (2**31)), "--max-len", "160"]
+    try:
+        p = subprocess.run(cmd, capture_output=True, text=True, timeout=7200)
+    except subprocess.TimeoutExpired:
+        shard.notes["atheris-timeout"] += 1
+        return
+    stats = os.path.join(work, "stats.json")
+    if not os.path.exists(stats):
+        shard.notes["atheris-unavailable"] += 1
+        return
+    s = json.load(open(stats))
+    shard.evaluations += s["executions"]
+    shard.classes["atheris-" + spec["corpus"]] += s["executions"]
+    shard.classes["atheris:valid-inputs"] += s["compiled"]
+    for h in s["nontrivial_hashes"]:
+        shard.nontrivial.add(h)
+    for smp in s.get("samples", [])[:3]:
+        shard.samples.append({"q": smp, "origin": "atheris-" + spec["corpus"]})
+    for q in s["failures"]:
+        case = {"q": q}
+        f = examine(case)
+        if f:
+            shard.fail(f["bucket"], case, f, size=len(q))
